@@ -753,6 +753,7 @@ func c13(r *core.Run) {
 	gcCounterProvenance(r, "C13.P2")
 	gcCounterFreshRead(r, "C13.Lk3")
 	gcForceCleanGuard(r, "C13.G4")
+	gcDeltaPaired(r, "C13.G5")
 }
 
 // rmwRule: the batch read-modify-write rule (see Meta of C13). only == nil: every helper and
